@@ -167,6 +167,7 @@ class Interp:
         self.call_hooks = []
         self.inline_log = set()
         self.live_gens = []
+        self.class_attr_overrides = {}     # class -> {name: value}: class attributes assigned by analysed code / contracts
 
     # ------------------------------------------------------------------ helpers
     def fail(self, kind, msg, node=None):
@@ -256,6 +257,9 @@ class Interp:
     # ------------------------------------------------------------------ attribute protocol
     def lookup_class_attr(self, cls, name):
         for k in cls.__mro__:
+            ov = self.class_attr_overrides.get(k)
+            if ov is not None and name in ov:
+                return ov[name]
             d = k.__dict__
             if name in d:
                 return d[name]
@@ -419,7 +423,8 @@ class Interp:
         if isinstance(obj, Func):
             return      # function attributes (documark) are irrelevant
         if isinstance(obj, type):
-            raise Unsupported(f"assignment to class attribute {obj.__name__}.{name}")
+            self.class_attr_overrides.setdefault(obj, {})[name] = value    # never touches the native class
+            return
         mod = inspect.getmodule(type(obj))
         if mod is not None and S.is_repo_file(getattr(mod, "__file__", "") or ""):
             return self.setattr(self.lift_instance(obj), name, value, node)
